@@ -190,6 +190,28 @@ func mangle(g *hx.Gen, m []byte, coords int, pfx string) []byte {
 	return m
 }
 
+// emitDbl: e.Add(e, e) / e.Add(e, Q) with Q the same group element — the real code returns a wrong
+// point (Double is not alias-safe); reported, switched on once /repo is repaired.
+const emitDbl = false
+
+// aliasScalars draws (a, b) for the receiver-aliasing ops. While emitDbl is off, pairs that make one
+// of the aliased additions a doubling (a ≡ ±b, b ≡ 0 mod n) are re-drawn: those forms are the
+// reported defect and live in dbl1/dbl2.
+func aliasScalars(g *hx.Gen) (a, b *big.Int) {
+	for {
+		a, b = scalar(g), scalar(g)
+		if emitDbl {
+			return
+		}
+		d := new(big.Int).Mod(new(big.Int).Sub(a, b), n)
+		s := new(big.Int).Mod(new(big.Int).Add(a, b), n)
+		if d.Sign() != 0 && s.Sign() != 0 && new(big.Int).Mod(b, n).Sign() != 0 {
+			return
+		}
+		g.Stat("alias.redrawn-doubling")
+	}
+}
+
 func gen(g *hx.Gen) {
 	r := g.R
 	fillPools(g)
@@ -225,6 +247,20 @@ func gen(g *hx.Gen) {
 		g.Emit("g1 a=%d b=%d k=%d", k, 3, k)
 		g.Emit("g2 a=%d b=%d k=%d", k, 3, k)
 	}
+	for _, k := range []int64{0, 1, -1, 5} { // aliasing forms at the degenerate scalars too
+		g.Emit("alias1 a=%d b=%d k=%d", k, k+3, k)
+		g.Emit("alias2 a=%d b=%d k=%d", k, k+3, k)
+	}
+	if emitDbl {
+		for _, k := range []int64{0, 1, -1, 5} {
+			g.Emit("dbl1 a=%d", k)
+			g.Emit("dbl2 a=%d", k)
+		}
+		for i := 0; i < 12; i++ {
+			g.Emit("dbl1 a=%s", scalar(g))
+			g.Emit("dbl2 a=%s", scalar(g))
+		}
+	}
 
 	for _, ab := range [][2]int64{{5, -1}, {-1, -1}, {-1, 1}, {1, 1}, {0, 7}, {7, 0}} { // b = −1: negated affine generator
 		g.Emit("pair a=%d b=%d", ab[0], ab[1])
@@ -237,9 +273,20 @@ func gen(g *hx.Gen) {
 			g.Emit("g2u m=%s", hx.Hex(mangle(g, g2Point(g), 4, "g2u")))
 		}
 	}
-	nOps := g.Count(150, 8000)
+	nOps := g.Count(170, 9000)
 	for i := 0; i < nOps; i++ {
-		switch r.Intn(8) {
+		switch r.Intn(11) {
+		case 8:
+			g.Stat("op.alias1")
+			a, b := aliasScalars(g)
+			g.Emit("alias1 a=%s b=%s k=%s", a, b, scalar(g))
+		case 9:
+			g.Stat("op.alias2")
+			a, b := aliasScalars(g)
+			g.Emit("alias2 a=%s b=%s k=%s", a, b, scalar(g))
+		case 10:
+			g.Stat("op.aliast")
+			g.Emit("aliast e=%s f=%s k=%s", hx.Hex(hx.Pick(r, gtPool)), hx.Hex(hx.Pick(r, gtPool)), scalar(g))
 		case 0, 1, 2:
 			g.Stat("op.g1")
 			g.Emit("g1 a=%s b=%s k=%s", scalar(g), scalar(g), scalar(g))
@@ -274,12 +321,90 @@ func gen(g *hx.Gen) {
 	}
 }
 
+// bi parses a decimal scalar into a big.Int whose word slice has spare capacity (so that a callee
+// writing past len, or normalising in place, is visible to snap).
 func bi(s string) *big.Int {
 	v, ok := new(big.Int).SetString(s, 10)
 	if !ok {
 		panic("bad integer " + s)
 	}
+	w := append(make([]big.Word, 0, len(v.Bits())+3), v.Bits()...)
+	full := w[:cap(w)]
+	for i := len(w); i < len(full); i++ {
+		full[i] = big.Word(0xa5a5a5a5a5a5a5a5)
+	}
+	neg := v.Sign() < 0
+	v.SetBits(w)
+	if neg {
+		v.Neg(v)
+	}
 	return v
+}
+
+// snap remembers a scalar's value and every word of its backing array.
+type snap struct {
+	k     *big.Int
+	val   *big.Int
+	words []big.Word
+}
+
+func snapBig(k *big.Int) snap {
+	w := k.Bits()
+	return snap{k, new(big.Int).Set(k), append([]big.Word(nil), w[:cap(w)]...)}
+}
+func (s snap) changed() bool {
+	w := s.k.Bits()
+	if s.k.Cmp(s.val) != 0 || cap(w) != len(s.words) {
+		return true
+	}
+	w = w[:cap(w)]
+	for i := range w {
+		if w[i] != s.words[i] {
+			return true
+		}
+	}
+	return false
+}
+
+// scribbleBig changes the scalar in place (same backing array): results computed from it earlier
+// must not change.
+func scribbleBig(k *big.Int) {
+	w := k.Bits()
+	w = w[:cap(w)]
+	for i := range w {
+		w[i] ^= big.Word(0x3c3c3c3c3c3c3c3c)
+	}
+}
+
+type muts []string
+
+func (m *muts) add(cond bool, name string) {
+	if cond {
+		*m = append(*m, name)
+	}
+}
+func (m *muts) arena(a *hx.Arena) {
+	if c := a.Check(); c != "-" {
+		*m = append(*m, c)
+	}
+}
+func (m *muts) snaps(ss ...snap) {
+	for i, s := range ss {
+		m.add(s.changed(), fmt.Sprintf("scalar%d", i))
+	}
+}
+func (m muts) String() string {
+	if len(m) == 0 {
+		return "-"
+	}
+	return strings.Join(m, ",")
+}
+
+func scribble(b []byte) {
+	b = b[:cap(b)]
+	for i := range b {
+		b[i] ^= byte(0x3c + i)
+	}
 }
 
 func b2i(b bool) int {
@@ -303,29 +428,58 @@ func isOne(e *bn256.GT) bool {
 	return true
 }
 
+func h(b []byte) string { return hx.Hex(b) }
+
 func exec(line string) string {
 	o := hx.Parse(line)
+	var m muts
 	switch o.Cmd {
-	case "g1u":
-		e, ok := new(bn256.G1).Unmarshal(o.Hex("m"))
+	case "g1u", "g2u":
+		ar := hx.NewArena()
+		in := ar.In("m", o.Hex("m"))
+		var out []byte
+		var ok, nonnil bool
+		if o.Cmd == "g1u" {
+			e, k := new(bn256.G1).Unmarshal(in)
+			ok, nonnil = k, e != nil
+			m.arena(ar)
+			if ok {
+				first := e.Marshal()
+				scribble(in) // the decoded element must not alias the caller's slice
+				out = e.Marshal()
+				m.add(!bytes.Equal(first, out), "element-aliases-input")
+				// a dirty receiver (already holding another point) must decode to the same element
+				d := new(bn256.G1).ScalarBaseMult(big.NewInt(7))
+				if d2, ok2 := d.Unmarshal(o.Hex("m")); !ok2 || !bytes.Equal(d2.Marshal(), out) {
+					m = append(m, "dirty-receiver")
+				}
+			}
+		} else {
+			e, k := new(bn256.G2).Unmarshal(in)
+			ok, nonnil = k, e != nil
+			m.arena(ar)
+			if ok {
+				first := e.Marshal()
+				scribble(in)
+				out = e.Marshal()
+				m.add(!bytes.Equal(first, out), "element-aliases-input")
+				d := new(bn256.G2).ScalarBaseMult(big.NewInt(7))
+				if d2, ok2 := d.Unmarshal(o.Hex("m")); !ok2 || !bytes.Equal(d2.Marshal(), out) {
+					m = append(m, "dirty-receiver")
+				}
+			}
+		}
 		if !ok {
-			if e != nil {
+			if nonnil {
 				return "reject-nonnil"
 			}
-			return "reject"
+			return "reject mut=" + m.String()
 		}
-		return "ok " + hx.Hex(e.Marshal())
-	case "g2u":
-		e, ok := new(bn256.G2).Unmarshal(o.Hex("m"))
-		if !ok {
-			if e != nil {
-				return "reject-nonnil"
-			}
-			return "reject"
-		}
-		return "ok " + hx.Hex(e.Marshal())
+		return "ok " + h(out) + " mut=" + m.String()
 	case "g1":
 		a, b, k := bi(o.Str("a")), bi(o.Str("b")), bi(o.Str("k"))
+		sa, sb, sk := snapBig(a), snapBig(b), snapBig(k)
+		two := big.NewInt(2)
 		P := new(bn256.G1).ScalarBaseMult(a)
 		Q := new(bn256.G1).ScalarBaseMult(b)
 		S := new(bn256.G1).Add(P, Q) // Jacobian inputs
@@ -333,22 +487,32 @@ func exec(line string) string {
 		N := new(bn256.G1).Neg(P)
 		M := new(bn256.G1).ScalarMult(P, k)
 		D := new(bn256.G1).Add(P, P)
-		D2 := new(bn256.G1).ScalarMult(P, big.NewInt(2))
+		D2 := new(bn256.G1).ScalarMult(P, two)
 		Z := new(bn256.G1).Add(P, N)
+		m.snaps(sa, sb, sk)
+		m.add(two.Cmp(big.NewInt(2)) != 0, "scalar-two")
+		scribbleBig(a)
+		scribbleBig(b)
+		scribbleBig(k)
 		pm, qm := P.Marshal(), Q.Marshal()
-		var sb strings.Builder
-		fmt.Fprintf(&sb, "p=%s q=%s s=%s c=%s n=%s m=%s d=%s dd=%d z=%s", hx.Hex(pm), hx.Hex(qm), hx.Hex(S.Marshal()), hx.Hex(C.Marshal()),
-			hx.Hex(N.Marshal()), hx.Hex(M.Marshal()), hx.Hex(D.Marshal()), b2i(bytes.Equal(D.Marshal(), D2.Marshal())), hx.Hex(Z.Marshal()))
-		P2, ok1 := new(bn256.G1).Unmarshal(pm)
-		Q2, ok2 := new(bn256.G1).Unmarshal(qm)
+		var sbd strings.Builder
+		fmt.Fprintf(&sbd, "p=%s q=%s s=%s c=%s n=%s m=%s d=%s dd=%d z=%s", h(pm), h(qm), h(S.Marshal()), h(C.Marshal()),
+			h(N.Marshal()), h(M.Marshal()), h(D.Marshal()), b2i(bytes.Equal(D.Marshal(), D2.Marshal())), h(Z.Marshal()))
+		ar := hx.NewArena()
+		pin, qin := ar.In("p", pm), ar.In("q", qm)
+		P2, ok1 := new(bn256.G1).Unmarshal(pin)
+		Q2, ok2 := new(bn256.G1).Unmarshal(qin)
+		m.arena(ar)
 		if !ok1 || !ok2 {
-			sb.WriteString(" rt=0")
+			sbd.WriteString(" rt=0")
 		} else {
-			fmt.Fprintf(&sb, " rt=%d s2=%s", b2i(bytes.Equal(P2.Marshal(), pm)), hx.Hex(new(bn256.G1).Add(P2, Q2).Marshal()))
+			fmt.Fprintf(&sbd, " rt=%d s2=%s", b2i(bytes.Equal(P2.Marshal(), pm)), h(new(bn256.G1).Add(P2, Q2).Marshal()))
 		}
-		return sb.String()
+		m.add(!bytes.Equal(P.Marshal(), pm) || !bytes.Equal(Q.Marshal(), qm), "operand-changed")
+		return sbd.String() + " mut=" + m.String()
 	case "g2":
 		a, b, k := bi(o.Str("a")), bi(o.Str("b")), bi(o.Str("k"))
+		sa, sb, sk := snapBig(a), snapBig(b), snapBig(k)
 		P := new(bn256.G2).ScalarBaseMult(a)
 		Q := new(bn256.G2).ScalarBaseMult(b)
 		S := new(bn256.G2).Add(P, Q)
@@ -356,75 +520,255 @@ func exec(line string) string {
 		M := new(bn256.G2).ScalarMult(P, k)
 		D := new(bn256.G2).Add(P, P)
 		D2 := new(bn256.G2).ScalarMult(P, big.NewInt(2))
+		m.snaps(sa, sb, sk)
+		scribbleBig(a)
+		scribbleBig(b)
+		scribbleBig(k)
 		pm, qm := P.Marshal(), Q.Marshal()
-		var sb strings.Builder
-		fmt.Fprintf(&sb, "p=%s q=%s s=%s c=%s m=%s d=%s dd=%d", hx.Hex(pm), hx.Hex(qm), hx.Hex(S.Marshal()), hx.Hex(C.Marshal()),
-			hx.Hex(M.Marshal()), hx.Hex(D.Marshal()), b2i(bytes.Equal(D.Marshal(), D2.Marshal())))
-		P2, ok1 := new(bn256.G2).Unmarshal(pm)
-		Q2, ok2 := new(bn256.G2).Unmarshal(qm)
+		var sbd strings.Builder
+		fmt.Fprintf(&sbd, "p=%s q=%s s=%s c=%s m=%s d=%s dd=%d", h(pm), h(qm), h(S.Marshal()), h(C.Marshal()),
+			h(M.Marshal()), h(D.Marshal()), b2i(bytes.Equal(D.Marshal(), D2.Marshal())))
+		ar := hx.NewArena()
+		pin, qin := ar.In("p", pm), ar.In("q", qm)
+		P2, ok1 := new(bn256.G2).Unmarshal(pin)
+		Q2, ok2 := new(bn256.G2).Unmarshal(qin)
+		m.arena(ar)
 		if !ok1 || !ok2 {
-			sb.WriteString(" rt=0")
+			sbd.WriteString(" rt=0")
 		} else {
-			fmt.Fprintf(&sb, " rt=%d s2=%s", b2i(bytes.Equal(P2.Marshal(), pm)), hx.Hex(new(bn256.G2).Add(P2, Q2).Marshal()))
+			fmt.Fprintf(&sbd, " rt=%d s2=%s", b2i(bytes.Equal(P2.Marshal(), pm)), h(new(bn256.G2).Add(P2, Q2).Marshal()))
 		}
-		return sb.String()
+		m.add(!bytes.Equal(P.Marshal(), pm) || !bytes.Equal(Q.Marshal(), qm), "operand-changed")
+		return sbd.String() + " mut=" + m.String()
 	case "g1m":
-		P, ok := new(bn256.G1).Unmarshal(o.Hex("m"))
+		ar := hx.NewArena()
+		in := ar.In("m", o.Hex("m"))
+		P, ok := new(bn256.G1).Unmarshal(in)
 		if !ok {
 			return "reject"
 		}
 		k := bi(o.Str("k"))
+		sk := snapBig(k)
 		G := new(bn256.G1).ScalarBaseMult(one)
 		M := new(bn256.G1).ScalarMult(P, k)
 		D := new(bn256.G1).Add(P, P)
 		A := new(bn256.G1).Add(P, G)
 		Z := new(bn256.G1).Add(P, new(bn256.G1).Neg(P))
-		return fmt.Sprintf("m=%s d=%s g=%s n=%s", hx.Hex(M.Marshal()), hx.Hex(D.Marshal()), hx.Hex(A.Marshal()), hx.Hex(Z.Marshal()))
+		m.arena(ar)
+		m.snaps(sk)
+		scribble(in)
+		scribbleBig(k)
+		m.add(!bytes.Equal(P.Marshal(), o.Hex("m")), "operand-changed")
+		return fmt.Sprintf("m=%s d=%s g=%s n=%s mut=%s", h(M.Marshal()), h(D.Marshal()), h(A.Marshal()), h(Z.Marshal()), m)
 	case "g2m":
-		P, ok := new(bn256.G2).Unmarshal(o.Hex("m"))
+		ar := hx.NewArena()
+		in := ar.In("m", o.Hex("m"))
+		P, ok := new(bn256.G2).Unmarshal(in)
 		if !ok {
 			return "reject"
 		}
 		k := bi(o.Str("k"))
+		sk := snapBig(k)
 		G := new(bn256.G2).ScalarBaseMult(one)
 		M := new(bn256.G2).ScalarMult(P, k)
 		D := new(bn256.G2).Add(P, P)
 		A := new(bn256.G2).Add(P, G)
-		return fmt.Sprintf("m=%s d=%s g=%s", hx.Hex(M.Marshal()), hx.Hex(D.Marshal()), hx.Hex(A.Marshal()))
+		m.arena(ar)
+		m.snaps(sk)
+		scribble(in)
+		scribbleBig(k)
+		m.add(!bytes.Equal(P.Marshal(), o.Hex("m")), "operand-changed")
+		return fmt.Sprintf("m=%s d=%s g=%s mut=%s", h(M.Marshal()), h(D.Marshal()), h(A.Marshal()), m)
+	case "alias1":
+		// G1 with the receiver aliasing an operand, and one receiver reused as destination of
+		// successive operations (it still holds the previous result each time)
+		a, b, k := bi(o.Str("a")), bi(o.Str("b")), bi(o.Str("k"))
+		sa, sb, sk := snapBig(a), snapBig(b), snapBig(k)
+		mkP := func() *bn256.G1 { return new(bn256.G1).ScalarBaseMult(a) }
+		mkQ := func() *bn256.G1 { return new(bn256.G1).ScalarBaseMult(b) }
+		pm, qm := mkP().Marshal(), mkQ().Marshal()
+		e1, Q1 := mkP(), mkQ()
+		e1.Add(e1, Q1) // e = a
+		m.add(!bytes.Equal(Q1.Marshal(), qm), "add(e,b).b")
+		e2, P2 := mkQ(), mkP()
+		e2.Add(P2, e2) // e = b
+		m.add(!bytes.Equal(P2.Marshal(), pm), "add(a,e).a")
+		e3 := mkP()
+		e3.ScalarMult(e3, k)
+		e4 := mkP()
+		e4.Neg(e4)
+		e6 := mkP()
+		e6.ScalarBaseMult(k) // receiver holds a point already
+		d := new(bn256.G1)
+		P, Q := mkP(), mkQ()
+		var seq []string
+		d.ScalarMult(P, k)
+		seq = append(seq, h(d.Marshal()))
+		d.Add(P, Q)
+		seq = append(seq, h(d.Marshal()))
+		d.Neg(Q)
+		seq = append(seq, h(d.Marshal()))
+		d.Add(d, P) // −Q + P with e = a after a Marshal (affine receiver)
+		seq = append(seq, h(d.Marshal()))
+		d.ScalarBaseMult(a)
+		seq = append(seq, h(d.Marshal()))
+		m.add(!bytes.Equal(P.Marshal(), pm) || !bytes.Equal(Q.Marshal(), qm), "operand-changed")
+		m.snaps(sa, sb, sk)
+		scribbleBig(a)
+		scribbleBig(b)
+		scribbleBig(k)
+		return fmt.Sprintf("s1=%s s2=%s m=%s n=%s bm=%s seq=%s mut=%s", h(e1.Marshal()), h(e2.Marshal()), h(e3.Marshal()),
+			h(e4.Marshal()), h(e6.Marshal()), strings.Join(seq, ","), m)
+	case "dbl1": // receiver = first operand and second operand is the same group element
+		a := bi(o.Str("a"))
+		e1 := new(bn256.G1).ScalarBaseMult(a)
+		e1.Add(e1, e1)
+		e2, Q := new(bn256.G1).ScalarBaseMult(a), new(bn256.G1).ScalarBaseMult(a)
+		e2.Add(e2, Q)
+		e3, P := new(bn256.G1).ScalarBaseMult(a), new(bn256.G1).ScalarBaseMult(a)
+		e3.Add(P, e3)
+		return fmt.Sprintf("ee=%s eq=%s pe=%s", h(e1.Marshal()), h(e2.Marshal()), h(e3.Marshal()))
+	case "dbl2":
+		a := bi(o.Str("a"))
+		e1 := new(bn256.G2).ScalarBaseMult(a)
+		e1.Add(e1, e1)
+		e2, Q := new(bn256.G2).ScalarBaseMult(a), new(bn256.G2).ScalarBaseMult(a)
+		e2.Add(e2, Q)
+		e3, P := new(bn256.G2).ScalarBaseMult(a), new(bn256.G2).ScalarBaseMult(a)
+		e3.Add(P, e3)
+		return fmt.Sprintf("ee=%s eq=%s pe=%s", h(e1.Marshal()), h(e2.Marshal()), h(e3.Marshal()))
+	case "alias2":
+		a, b, k := bi(o.Str("a")), bi(o.Str("b")), bi(o.Str("k"))
+		sa, sb, sk := snapBig(a), snapBig(b), snapBig(k)
+		mkP := func() *bn256.G2 { return new(bn256.G2).ScalarBaseMult(a) }
+		mkQ := func() *bn256.G2 { return new(bn256.G2).ScalarBaseMult(b) }
+		pm, qm := mkP().Marshal(), mkQ().Marshal()
+		e1, Q1 := mkP(), mkQ()
+		e1.Add(e1, Q1)
+		m.add(!bytes.Equal(Q1.Marshal(), qm), "add(e,b).b")
+		e2, P2 := mkQ(), mkP()
+		e2.Add(P2, e2)
+		m.add(!bytes.Equal(P2.Marshal(), pm), "add(a,e).a")
+		e3 := mkP()
+		e3.ScalarMult(e3, k)
+		e6 := mkP()
+		e6.ScalarBaseMult(k)
+		d := new(bn256.G2)
+		P, Q := mkP(), mkQ()
+		var seq []string
+		d.ScalarMult(P, k)
+		seq = append(seq, h(d.Marshal()))
+		d.Add(P, Q)
+		seq = append(seq, h(d.Marshal()))
+		d.Add(d, P)
+		seq = append(seq, h(d.Marshal()))
+		d.ScalarBaseMult(a)
+		seq = append(seq, h(d.Marshal()))
+		m.add(!bytes.Equal(P.Marshal(), pm) || !bytes.Equal(Q.Marshal(), qm), "operand-changed")
+		m.snaps(sa, sb, sk)
+		scribbleBig(a)
+		scribbleBig(b)
+		scribbleBig(k)
+		return fmt.Sprintf("s1=%s s2=%s m=%s bm=%s seq=%s mut=%s", h(e1.Marshal()), h(e2.Marshal()), h(e3.Marshal()),
+			h(e6.Marshal()), strings.Join(seq, ","), m)
+	case "aliast":
+		eb, fb := o.Hex("e"), o.Hex("f")
+		k := bi(o.Str("k"))
+		sk := snapBig(k)
+		ar := hx.NewArena()
+		ein, fin := ar.In("e", eb), ar.In("f", fb)
+		mk := func(b []byte) *bn256.GT {
+			x, ok := new(bn256.GT).Unmarshal(b)
+			if !ok {
+				panic("gt unmarshal")
+			}
+			return x
+		}
+		e1, f1 := mk(ein), mk(fin)
+		m.arena(ar)
+		scribble(ein) // elements must not alias the caller's slices
+		scribble(fin)
+		e1.Add(e1, f1) // e = a
+		m.add(!bytes.Equal(f1.Marshal(), fb), "add(e,b).b")
+		e2, f2 := mk(eb), mk(fb)
+		f2.Add(e2, f2) // e = b
+		m.add(!bytes.Equal(e2.Marshal(), eb), "add(a,e).a")
+		e3 := mk(eb)
+		e3.Neg(e3)
+		e4 := mk(eb)
+		e4.ScalarMult(e4, k)
+		e5 := mk(eb)
+		e5.Add(e5, e5)
+		d := new(bn256.GT)
+		E, F := mk(eb), mk(fb)
+		var seq []string
+		d.ScalarMult(E, k)
+		seq = append(seq, h(d.Marshal()))
+		d.Add(E, F)
+		seq = append(seq, h(d.Marshal()))
+		d.Neg(F)
+		seq = append(seq, h(d.Marshal()))
+		d.Add(d, E)
+		seq = append(seq, h(d.Marshal()))
+		m.add(!bytes.Equal(E.Marshal(), eb) || !bytes.Equal(F.Marshal(), fb), "operand-changed")
+		m.snaps(sk)
+		scribbleBig(k)
+		return fmt.Sprintf("s1=%s s2=%s n=%s x=%s d=%s seq=%s mut=%s", h(e1.Marshal()), h(f2.Marshal()), h(e3.Marshal()),
+			h(e4.Marshal()), h(e5.Marshal()), strings.Join(seq, ","), m)
 	case "pair":
 		a, b := bi(o.Str("a")), bi(o.Str("b"))
-		e := bn256.Pair(new(bn256.G1).ScalarBaseMult(a), new(bn256.G2).ScalarBaseMult(b))
+		sa, sb := snapBig(a), snapBig(b)
+		P, Q := new(bn256.G1).ScalarBaseMult(a), new(bn256.G2).ScalarBaseMult(b)
+		e := bn256.Pair(P, Q)
 		e0 := bn256.Pair(new(bn256.G1).ScalarBaseMult(one), new(bn256.G2).ScalarBaseMult(one))
 		// bilinearity, three ways: e(aP,bQ) = e(P,Q)^(ab) = e(abP,Q) = e(P,abQ)
 		ab := new(big.Int).Mul(a, b)
 		r1 := new(bn256.GT).ScalarMult(e0, ab)
 		r2 := bn256.Pair(new(bn256.G1).ScalarBaseMult(ab), new(bn256.G2).ScalarBaseMult(one))
 		r3 := bn256.Pair(new(bn256.G1).ScalarBaseMult(one), new(bn256.G2).ScalarBaseMult(ab))
+		m.snaps(sa, sb)
 		em := e.Marshal()
+		// Pair must leave its arguments usable: pairing them again gives the same value
+		m.add(!bytes.Equal(bn256.Pair(P, Q).Marshal(), em), "pair-changed-operands")
 		bilin := bytes.Equal(em, r1.Marshal()) && bytes.Equal(em, r2.Marshal()) && bytes.Equal(em, r3.Marshal())
-		return fmt.Sprintf("e=%s one=%d bilin=%d", hx.Hex(em), b2i(isOne(e)), b2i(bilin))
+		return fmt.Sprintf("e=%s one=%d bilin=%d mut=%s", h(em), b2i(isOne(e)), b2i(bilin), m)
 	case "pairm":
-		P, ok1 := new(bn256.G1).Unmarshal(o.Hex("g1"))
-		Q, ok2 := new(bn256.G2).Unmarshal(o.Hex("g2"))
+		ar := hx.NewArena()
+		i1, i2 := ar.In("g1", o.Hex("g1")), ar.In("g2", o.Hex("g2"))
+		P, ok1 := new(bn256.G1).Unmarshal(i1)
+		Q, ok2 := new(bn256.G2).Unmarshal(i2)
 		if !ok1 || !ok2 {
 			return "reject"
 		}
-		P = new(bn256.G1).ScalarMult(P, bi(o.Str("k1")))
-		Q = new(bn256.G2).ScalarMult(Q, bi(o.Str("k2")))
+		scribble(i1)
+		scribble(i2)
+		k1, k2 := bi(o.Str("k1")), bi(o.Str("k2"))
+		s1, s2 := snapBig(k1), snapBig(k2)
+		P.ScalarMult(P, k1) // receiver = operand
+		Q.ScalarMult(Q, k2)
+		m.snaps(s1, s2)
 		e := bn256.Pair(P, Q)
-		return fmt.Sprintf("e=%s one=%d", hx.Hex(e.Marshal()), b2i(isOne(e)))
+		return fmt.Sprintf("e=%s one=%d mut=%s", h(e.Marshal()), b2i(isOne(e)), m)
 	case "gt":
-		e, ok1 := new(bn256.GT).Unmarshal(o.Hex("e"))
-		f, ok2 := new(bn256.GT).Unmarshal(o.Hex("f"))
+		ar := hx.NewArena()
+		ein, fin := ar.In("e", o.Hex("e")), ar.In("f", o.Hex("f"))
+		e, ok1 := new(bn256.GT).Unmarshal(ein)
+		f, ok2 := new(bn256.GT).Unmarshal(fin)
 		if !ok1 || !ok2 {
 			return "reject"
 		}
+		m.arena(ar)
+		scribble(ein)
+		scribble(fin)
 		k := bi(o.Str("k"))
+		sk := snapBig(k)
 		add := new(bn256.GT).Add(e, f)
 		neg := new(bn256.GT).Neg(e)
 		exp := new(bn256.GT).ScalarMult(e, k)
 		z := new(bn256.GT).Add(e, neg)
-		return fmt.Sprintf("add=%s neg=%s exp=%s rt=%s z=%d", hx.Hex(add.Marshal()), hx.Hex(neg.Marshal()), hx.Hex(exp.Marshal()), hx.Hex(e.Marshal()), b2i(isOne(z)))
+		m.snaps(sk)
+		scribbleBig(k)
+		return fmt.Sprintf("add=%s neg=%s exp=%s rt=%s z=%d mut=%s", h(add.Marshal()), h(neg.Marshal()), h(exp.Marshal()), h(e.Marshal()), b2i(isOne(z)), m)
 	}
 	return "bad-op"
 }
